@@ -32,6 +32,7 @@ def main():
     ap.add_argument('--keep', action='store_true')
     a = ap.parse_args()
     seed = int(os.environ.get('VERIF_SEED', '0') or 0)
+    vdriver.install_signal_handlers()
     t0 = time.time()
     pid = a.prop
     modpath = os.path.join(ROOT, 'checks', pid + '.py')
@@ -106,6 +107,7 @@ def main():
         print(f'KNOWN-FINDING: property={pid} {k["what"]} (group {r.group.name}, obligations {",".join(p[0] for p in r.failed)})')
     OUT = os.environ.get('VERIF_OUT') or ROOT
     os.makedirs(os.path.join(OUT, 'replays'), exist_ok=True)
+    skel_downgraded = []
     for r in violations:
         path = os.path.join(OUT, 'replays', f'{pid}-{re.sub(chr(92)+"W", "_", r.group.name)}.json')
         rep = {'property': pid, 'group': r.group.name, 'clause': r.group.clause,
@@ -119,11 +121,19 @@ def main():
             except Exception as e:
                 rep['native_replay'] = {'reproduced': None, 'detail': 'replay driver error: ' + repr(e)}
         json.dump(rep, open(path, 'w'), indent=1)
+        if r.group.skeleton and not reproduced:
+            # the skeleton over-approximates the real control flow: without a reproduction on the real code the failed
+            # obligation may be an artefact of the abstraction -> undecided, never an alarm
+            undecided.append((r, f'obligation {r.failed[0][0]} ({r.failed[0][1]}) fails on the control-flow skeleton but the native '
+                                 f'replay did not reproduce it on the real code (details: {path})'))
+            skel_downgraded.append(r)
+            continue
         suffix = '' if reproduced else ' no-failing-input-found'
         print(f'VIOLATION property={pid} replay={path}{suffix}')
         for p in r.failed[:5]:
             print(f'    failed obligation {p[0]}: {p[1]} (line {p[3]})')
         rc = 1
+    violations = [r for r in violations if r not in skel_downgraded]
     if undecided and rc == 0:
         rc = 2
     for r, why in undecided:
